@@ -236,3 +236,15 @@ func (l *ledGen) rollbackSafe(h int) bool {
 	}
 	return true
 }
+
+// walletOnBestChain: the wallet's tip block is on the node's best chain (pure lag is fine). The real entry
+// point only accepts unconfirmed transactions when the wallet is within one block of the node's best height
+// (the gate in proccessReceivedTx that the verification hook bypasses); a delivery that already conflicts with
+// the wallet's OWN stale chain is outside the compared domain of C09 (notes/C09.md).
+func (l *ledGen) walletOnBestChain() bool {
+	if len(l.synced) == 0 {
+		return true
+	}
+	h := len(l.synced) - 1
+	return h < len(l.chain) && l.chain[h] == l.synced[h]
+}
